@@ -3,6 +3,7 @@ package main
 import (
 	"fmt"
 	"sort"
+	"strings"
 
 	"github.com/Yiling-J/theine-go/internal"
 	"verifsim/simrt"
@@ -86,12 +87,35 @@ func genC11(g *gen, tier string) *Scenario {
 			{Kind: "heat", Key: 0, N: n, Cost: int64(g.rng(15, 22))}, {Kind: "wait"}}
 		sc.Params["mixedcosts"] = 0
 	}
+	big := !heated && g.pct(6)
+	if big {
+		// a cache whose window holds several entries, loaded into a much smaller one: the saved
+		// window (1 % of 300-1500) does not fit the target's window, main regions do not fit either
+		sc.Cache.MaxSize = int64(pick(g, 300, 600, 1000, 1500))
+		sc.Cache.WriteChan, sc.Cache.WriteBuf = 64, 128
+		n := int(sc.Cache.MaxSize)
+		ops = []Op{{Kind: "fill", Key: 0, N: n + g.rng(0, n/2)}, {Kind: "wait"}}
+		if g.pct(60) {
+			ops = append(ops, Op{Kind: "heat", Key: g.n(n / 2), N: g.rng(5, n/2), Cost: int64(g.rng(1, 4))}, Op{Kind: "wait"})
+		}
+		if g.pct(50) {
+			ops = append(ops, Op{Kind: "fill", Key: 2 * n, N: g.rng(1, 40)}, Op{Kind: "wait"})
+		}
+		sc.Params["mixedcosts"] = 0
+		long = false
+	}
 	sc.Clients = [][]Op{ops}
 	target := sc.Cache.MaxSize
 	sc.Family = "same-size"
-	if !heated && g.pct(40) {
+	if !heated && g.pct(40) || big {
 		target = int64(g.rng(1, int(sc.Cache.MaxSize)-1))
+		if big {
+			target = int64(pick(g, g.rng(2, 20), g.rng(20, 150), g.rng(100, int(sc.Cache.MaxSize)-1)))
+		}
 		sc.Family = "smaller-target"
+	}
+	if big {
+		sc.Family += ",big"
 	}
 	if long && !heated {
 		sc.Family += ",long-use"
@@ -220,7 +244,11 @@ func setupC11(env *simEnv) {
 		}
 		// consistency of the loaded cache
 		for _, e := range append(residentErrors(Lsn), accountingErrors(Lsn, true)...) {
-			rd.violate("C11/loaded-cache-inconsistent/"+classify(e)+","+fam+","+costs, "after LoadCache: "+e)
+			cls := classify(e)
+			if strings.HasPrefix(e, "policy total") && strings.Contains(e, "exceeds capacity") {
+				cls = "total-over-capacity" // own class: the known finding must not absorb other accounting errors
+			}
+			rd.violate("C11/loaded-cache-inconsistent/"+cls+","+fam+","+costs, "after LoadCache: "+e)
 		}
 		alive := func(k int) bool { s := saved[k]; return s.wall == 0 || s.wall > wall1 }
 		for _, rg := range []string{"window", "probation", "protected"} {
